@@ -260,6 +260,22 @@ class World(object):
         self.rule = R('none')
         self.nset = 0
         self.tm = self.new_manager(self.rule)
+        if backend == 'file-symlink':
+            self._preseed_colours(self.tm.cache.cache_dir)
+
+    def _preseed_colours(self, cache_dir, n=400):
+        """link_single_color_images: the image files the tile links point to exist already, written long ago (as in a cache
+        that has seen these colours before).  The time stamp of a tile is the time stamp of ITS link."""
+        from PIL import Image
+        d = os.path.join(cache_dir, 'single_color_tiles')
+        os.makedirs(d, exist_ok=True)
+        old = (BASE - 1000000) * 10 ** 9
+        for v in range(1, n + 1):
+            col = (v // 256, v % 256, 77)
+            p = os.path.join(d, '%02x%02x%02x.png' % col)
+            if not os.path.exists(p):
+                Image.new('RGB', (TS, TS), col).save(p, 'PNG')
+            os.utime(p, ns=(old, old))
 
     def _mk_cache(self, root):
         return BACKENDS[self.backend][1](root)
